@@ -55,30 +55,26 @@ BACKEND = {'dict': 'BDict', 'fs': 'BFs', 'zip': 'BZip', 'cfs': 'BFs'}
 # ---------------------------------------------------------------------------------------------------------------------
 # running the implementation
 
-def run_impl(case):
+def run_impl(case, tier=None):
+    tier = tier or case.get('tier', 'quick')
     try:
-        with vlib.time_limit(120):
-            kills, ktrace = [], []
-            r0 = impl.execute(case, None)
-            runs = [impl.execute(case, k) for k in range(r0['count'])]
-            if case['backend'] != 'dict' and case.get('kill', True):
-                # kill runs: history once, the final operation in a forked child that stops before position k
-                ra = impl.execute_all(case, tuple(case.get('kill_modes', ('noflush', 'flush'))), raise_runs=False)
-                if 'error' in ra:
-                    return {'crash': ra['error']}
-                if ra['before'] != r0['before'] or ra['after'] != r0['after']:
-                    return {'crash': 'non-deterministic run (kill runs)'}
-                kills, ktrace = ra['kills'], ra['ktrace']
+        with vlib.time_limit(180):
+            modes = tuple(case.get('kill_modes', ('noflush', 'flush'))) if case.get('kill', True) else ()
+            ra = impl.run_case(case, modes, real_kills=None if tier == 'thorough' else 2,
+                               validate=1 if tier == 'quick' else 2)
+            if 'error' in ra:
+                return {'crash': ra['error']}
+            r0, runs = ra['r0'], ra['runs']
             crashes = []
             for k, rk in enumerate(runs):
-                if not rk['fired'] or rk['before'] != r0['before']:
+                if not rk['fired'] or rk['trace'][:k + 1] != r0['trace'][:k + 1]:
                     return {'crash': 'non-deterministic primitive sequence at k=%d' % k}
                 crashes.append({'k': k, 'prim': r0['trace'][k], 'wb': rk['writes_before'], 'outcome': rk['outcome'],
                                 'obs': rk['after'], 'post': rk.get('post_obs', rk['after']),
                                 'post_outcome': rk.get('post_outcome')})
             return {'before': r0['before'], 'outcome': r0['outcome'], 'after': r0['after'], 'trace': r0['trace'],
                     'crashes': crashes, 'after_post': r0.get('post_obs', r0['after']),
-                    'post_outcome': r0.get('post_outcome'), 'kills': kills, 'ktrace': ktrace}
+                    'post_outcome': r0.get('post_outcome'), 'kills': ra['kills'], 'ktrace': ra['ktrace']}
     except vlib.Timeout:
         return {'hang': True}
     except Exception as e:
@@ -237,6 +233,129 @@ def enum_case(backend, preset, root_mode, kid_kinds, cleared, fault='raise'):
     return s.case({'op': op, 't': root}, 'enum %s %s %s' % (root_mode, '+'.join(kid_kinds), 'cleared' if cleared else ''))
 
 
+# ---------------------------------------------------------------------------------------------------------------------
+# round 3: deterministic families for input classes the sampled enumeration / the random stream reached only by luck
+
+ORDER_IDS = (3, 10, 20)     # 'n10' < 'n20' < 'n3' as strings, 3 < 10 < 20 as numbers
+
+
+def order_case(backend, perm, shape, mode, fault='raise'):
+    """identifier orderings: every assignment of three identifiers to root / middle / leaf (chain) or root / two
+    children (fork), so that a parent sorts before, between and after its children - lexicographically and
+    numerically; `mode` = store on an empty storage, or overwrite of a root that exists with other children"""
+    s = Scn(backend, fault)
+    a, b, c = (ORDER_IDS[j] for j in perm)
+    if mode == 'overwrite':
+        old = s.obj(a, [s.obj(30)])
+        s.history.append({'op': 'store', 't': old})
+    if shape == 'chain':
+        root = s.obj(a, [s.obj(b, [s.obj(c)], wrap=[True])])
+    else:
+        root = s.obj(a, [s.obj(b), s.obj(c, shape=1)], wrap=[False, True])
+    return s.case({'op': 'store' if mode == 'store' else 'overwrite', 't': root},
+                  'order %s %s %s' % (shape, mode, ''.join(map(str, perm))))
+
+
+def hist_case(backend, variant, fault='raise'):
+    """the final operation is preceded by deletes and re-stores on the same PulseStorage object: identifiers whose
+    cached object was dropped, re-stored with the same or with another object, objects that outlive their entry"""
+    s = Scn(backend, fault)
+    H = s.history
+    l1, l2 = s.obj(1), s.obj(2, shape=1)
+    r0 = s.obj(0, [l1, l2], wrap=[False, True])
+    H.append({'op': 'store', 't': r0})
+    if variant == 0:      # delete parent + child, re-store the child id with ANOTHER object, use the new object
+        H += [{'op': 'delete', 'id': 0}, {'op': 'delete', 'id': 1}]
+        n1 = s.obj(1)
+        H.append({'op': 'store', 't': n1})
+        final = {'op': 'store', 't': s.obj(4, [n1, s.obj(5)], wrap=[True, False])}
+    elif variant == 1:    # ... use the OLD object of the re-stored identifier (must be rejected before any write)
+        H += [{'op': 'delete', 'id': 0}, {'op': 'delete', 'id': 1}]
+        H.append({'op': 'store', 't': s.obj(1)})
+        final = {'op': 'store', 't': s.obj(4, [s.obj(5), l1])}
+    elif variant == 2:    # an object that outlives its deleted entry is stored again as part of a new root
+        H += [{'op': 'delete', 'id': 0}, {'op': 'delete', 'id': 1}]
+        final = {'op': 'store', 't': s.obj(4, [l1, l2], wrap=[True, False])}
+    elif variant == 3:    # delete, re-store the SAME object, then overwrite it
+        H += [{'op': 'delete', 'id': 0}, {'op': 'delete', 'id': 1}, {'op': 'store', 't': l1}]
+        final = {'op': 'overwrite', 't': s.obj(1, [s.obj(5)])}
+    elif variant == 4:    # store / delete twice, then a root over the object
+        H += [{'op': 'delete', 'id': 0}, {'op': 'delete', 'id': 2}, {'op': 'store', 't': l2}, {'op': 'delete', 'id': 2}]
+        final = {'op': 'store', 't': s.obj(4, [l2, l1])}
+    elif variant == 5:    # the root is replaced by another object over the same cached children; a child is overwritten
+        H.append({'op': 'delete', 'id': 0})
+        H.append({'op': 'store', 't': s.obj(0, [l2, l1], wrap=[True, True])})
+        final = {'op': 'overwrite', 't': s.obj(2, [s.obj(5)], shape=1)}
+    elif variant == 6:    # the cache is cleared between delete and re-store
+        H += [{'op': 'clear'}, {'op': 'delete', 'id': 0}]
+        n0 = s.obj(0, [s.obj(5)])
+        H.append({'op': 'store', 't': n0})
+        final = {'op': 'store', 't': s.obj(4, [n0, s.obj(6)])}
+    elif variant == 7:    # delete of an uncached identifier, re-store, overwrite
+        H += [{'op': 'clear'}, {'op': 'delete', 'id': 0}, {'op': 'delete', 'id': 1}, {'op': 'store', 't': l1}]
+        final = {'op': 'overwrite', 't': s.obj(1, [s.obj(5, [s.obj(6)])])}
+    elif variant == 8:    # rejected operations in the history (clash, missing), then delete + store of that identifier
+        H += [{'op': 'store', 't': s.obj(1)}, {'op': 'delete', 'id': 9}, {'op': 'delete', 'id': 0},
+              {'op': 'store', 't': s.obj(0, [l1])}]
+        final = {'op': 'overwrite', 't': s.obj(0, [l1, s.obj(5)])}
+    else:                 # final delete after a re-store
+        H += [{'op': 'delete', 'id': 0}, {'op': 'store', 't': s.obj(0, [l1])}]
+        final = {'op': 'delete', 'id': 0}
+    return s.case(final, 'hist %d' % variant)
+
+
+N_HIST = 10
+
+
+def overwrite_existing_cases(backends, rng):
+    """an identifier that exists (cached or not, referenced by other stored templates or not) is overwritten by a
+    template that brings new sub-templates, so that the flush consists of several puts and the overwritten document
+    is the last one"""
+    out = []
+    j = 0
+    for b in backends:
+        for rm, kinds in (('overwrite_cached1', []), ('overwrite_cached1', ['newleaf']), ('overwrite_cached1', ['newtree']),
+                          ('overwrite_cached0', ['newleaf']), ('overwrite_cached0', ['cached1', 'newleaf'])):
+            for cleared in (False, True):
+                if cleared and 'cached1' in kinds:
+                    continue
+                c = enum_case(b, 2, rm, kinds, cleared, 'partial' if j % 3 == 2 else 'raise')
+                c['note'] = 'ow ' + c['note'][5:]
+                f = c['final']
+                if j % 3 == 1:          # the failed overwrite is repeated
+                    c['post'] = dict(f)
+                elif j % 3 == 2:        # a new root over the object of the failed overwrite
+                    tag = str(max(int(t) for t in c['objs']) + 1)
+                    c['objs'][tag] = {'id': 40, 'payload': 900 + int(tag), 'kids': [f['t']], 'shape': 0, 'wrap': [False]}
+                    c['post'] = {'op': 'store', 't': int(tag)}
+                c['fixed_post'] = True
+                out.append(c)
+                j += 1
+    return out
+
+
+def lowlevel_cases(tier):
+    """zip archive written through proxied low-level file objects: every write of the archive writer (local headers,
+    entry data, the central directory and end record written inside ZipFile.close()) fails / is a kill position"""
+    out = []
+    for fault in ('raise', 'partial'):
+        specs = [(0, 'store_fresh', [], False), (1, 'store_fresh', ['newleaf'], False),
+                 (1, 'overwrite_cached1', [], False), (2, 'overwrite_cached0', ['newleaf'], True)]
+        if tier == 'thorough':
+            specs += [(2, 'store_fresh', ['newtree'], False), (1, 'overwrite_cached1', ['newleaf'], True)]
+        for preset, rm, kinds, cleared in specs:
+            c = enum_case('zip', preset, rm, kinds, cleared, fault)
+            c['note'] = 'lowlevel ' + c['note'][5:]
+            c['lowlevel'] = True
+            out.append(c)
+        c = enum_case('zip', 1, 'store_fresh', [], False, fault)
+        c['final'] = {'op': 'delete', 'id': 0}
+        c['note'] = 'lowlevel delete'
+        c['lowlevel'] = True
+        out.append(c)
+    return out
+
+
 def rand_tree(s, rng, fresh, reusable, depth, allow_bad=0.0, clash_ids=()):
     r = rng.random()
     if reusable and r < 0.25:
@@ -270,6 +389,22 @@ def rand_case(rng, backend):
     if stored and r < 0.15:
         victim = rng.choice(used)
         s.history.append({'op': 'delete', 'id': victim})
+    elif stored and r < 0.4:
+        # delete a stored root nothing refers to, then (mostly) store that identifier again: the same object, or
+        # another object with the same identifier over objects that are still cached
+        refd = {i for t in stored for i, _ in ids_in(s.objs, t)[1:]}
+        tops = [t for t in stored if s.objs[str(t)]['id'] not in refd]
+        if tops:
+            t = rng.choice(tops)
+            s.history.append({'op': 'delete', 'id': s.objs[str(t)]['id']})
+            q = rng.random()
+            if q < 0.4:
+                s.history.append({'op': 'store', 't': t})
+            elif q < 0.8:
+                o = s.objs[str(t)]
+                s.history.append({'op': 'store', 't': s.obj(o['id'], o['kids'][:rng.randint(0, len(o['kids']))],
+                                                          shape=rng.randint(0, 1))})
+                reusable.append(s.n)
     cleared = rng.random() < 0.25
     if cleared:
         s.history.append({'op': 'clear'})
@@ -305,19 +440,27 @@ def add_post(case, rng):
 
 
 KILL_SHARE = {'quick': 0.2, 'thorough': 0.2}
+LOWLEVEL_SHARE = {'quick': 0.06, 'thorough': 0.1}
 
 
 def gen_cases(rng, tier, ctx):
     cases = _gen_cases(rng, tier, ctx)
     for c in cases:
-        if rng.random() < 0.4:
+        c['tier'] = tier
+        if not c.pop('fixed_post', False) and rng.random() < 0.4:
             add_post(c, rng)
-        # kill runs (process stops at every position, two flush modes) are expensive: on a share of the cases
-        c['kill'] = c['backend'] != 'dict' and (rng.random() < KILL_SHARE[tier] or c['note'] in ('cycle', 'enum delete'))
+        fam = c['note'].split()[0]
+        # kill runs (a copy of the directory at every position, the process really killed at some) on a share of the cases
+        c['kill'] = c['backend'] != 'dict' and (rng.random() < KILL_SHARE[tier] or c['note'] in ('cycle', 'enum delete')
+                                                or fam == 'lowlevel' or (fam in ('hist', 'ow') and rng.random() < 0.5))
         # read primitives as fault positions (exception semantics) on a share of the cases
         c['reads'] = c['backend'] != 'dict' and rng.random() < (0.25 if tier == 'quick' else 0.15)
-        # 'noflush': data the process only handed to python file objects are lost; 'flush': they reached the disk
-        c['kill_modes'] = rng.choice([['flush'], ['flush'], ['noflush']] + ([['noflush', 'flush']] if tier == 'thorough' else []))
+        # the archive writer's own file object is proxied (every low-level write is a position) on a share of the zip cases
+        c['lowlevel'] = c.get('lowlevel', False) or (c['backend'] == 'zip' and rng.random() < LOWLEVEL_SHARE[tier])
+        # what reaches the disk when the process stops: nothing that was only handed to python file objects
+        # ('noflush'), all of it ('flush'), only the data of the file opened last / first ('flush-last' / 'flush-first')
+        c['kill_modes'] = rng.choice([['flush'], ['flush'], ['noflush'], ['noflush'], ['flush-last'], ['flush-first']]
+                                     + ([['noflush', 'flush'], ['flush-first', 'flush-last']] if tier == 'thorough' else []))
     return cases
 
 
@@ -363,6 +506,20 @@ def _gen_cases(rng, tier, ctx):
     for kk in (['newleaf'], ['newtree', 'cached1'], ['cached2', 'newleaf']):
         for rm in ('store_fresh', 'overwrite_cached0'):
             cases.append(enum_case('cfs', 1, rm, kk, False))
+    # round 3 families (deterministic)
+    perms = list(itertools.permutations(range(3)))
+    j = 0
+    for shape in ('chain', 'fork'):
+        for mode in ('store', 'overwrite'):
+            for perm in perms:
+                for b in (backends if tier == 'thorough' else [backends[j % 3]]):
+                    cases.append(order_case(b, perm, shape, mode, 'partial' if j % 4 == 3 else 'raise'))
+                j += 1
+    for b in backends + ['cfs']:
+        for variant in range(N_HIST):
+            cases.append(hist_case(b, variant, 'partial' if (variant + len(b)) % 3 == 0 else 'raise'))
+    cases.extend(overwrite_existing_cases(backends + ['cfs'], rng))
+    cases.extend(lowlevel_cases(tier))
     # random templates on random storages
     for _ in range({'quick': 150, 'thorough': 2500}[tier]):
         cases.append(rand_case(rng, rng.choice(backends)))
@@ -385,7 +542,13 @@ def _kill_positions(obs):
 def histogram_keys(case, obs):
     keys = ['backend:' + case['backend'], 'final:' + case['final']['op'], 'fault:' + case.get('fault', 'raise'),
             'followup:' + (case['post']['op'] if case.get('post') else 'none'),
-            'read_positions:' + ('yes' if case.get('reads') else 'no')]
+            'read_positions:' + ('yes' if case.get('reads') else 'no'),
+            'lowlevel_positions:' + ('yes' if case.get('lowlevel') else 'no')]
+    hops = [h['op'] for h in case['history']]
+    if 'delete' in hops and any(o in ('store', 'overwrite') for o in hops[hops.index('delete'):]):
+        keys.append('history:delete-then-store')
+    if case.get('kill') and case['backend'] != 'dict':
+        keys.append('kill_flush_mode:' + '+'.join(case.get('kill_modes', [])))
     if 'crashes' in obs:
         n = len(obs['crashes'])
         keys.append('outcome:' + obs['outcome'])
@@ -400,10 +563,13 @@ def histogram_keys(case, obs):
             keys.append('killpos:' + p)
         if any(c['leftovers'] for seq in obs.get('kills', []) for c in seq):
             keys.append('kill:temp-file-left-behind')
+        nreal = sum(1 for seq in obs.get('kills', []) for c in seq if c.get('real_kill'))
+        if nreal:
+            keys.append('kill:process-really-killed-at-%s-positions' % ('1-2' if nreal <= 2 else '3+'))
     else:
         keys.append('obs:crash')
-    if case['note'].startswith('enum'):
-        keys.append('stream:enum')
+    if case['note'].split()[0] in ('enum', 'order', 'hist', 'ow', 'lowlevel'):
+        keys.append('stream:' + case['note'].split()[0])
     elif case['note'].startswith('corpus'):
         keys.append('stream:corpus')
     else:
